@@ -3,6 +3,7 @@ import OV.Lemmas.C06Top
 import OV.Lemmas.C06Complete
 import OV.Lemmas.C06Solve
 import OV.Lemmas.C06SolveC
+import OV.Lemmas.C06Multi
 /-!
 # C06 — the pattern matcher reports a match exactly when the subgraph is an instance
 
@@ -17,10 +18,12 @@ Every theorem quantifies over all patterns, all host graphs, all roots, both val
 namespace OV.Props.C06
 open OV.C06
 
-/-- **Soundness, bindings exactness, removability — OR-free patterns.**
-If `Pattern.match` (model: `patternMatch`) reports a match `r` for a pattern without `OrValue`
-(whose node patterns refer only to earlier node patterns — always true for builder-made
-patterns — and, for the revision of `_match_node` as found (`E.fixF1 = false`), never asks a
+/-- **Soundness, bindings exactness, removability — patterns without BacktrackingOr.**
+If `Pattern.match` (model: `patternMatch`) reports a match `r` for a pattern in which every
+`OrValue` is an `OpIdDispatchOr` without tag variable (`dispOk`; OR-free patterns are a special
+case, `GPat.noOr_dispOk`; any number of output nodes)
+(whose node patterns refer, also inside OR alternatives, only to earlier node patterns — always true
+for builder-made patterns — and, for the revision of `_match_node` as found (`E.fixF1 = false`), never asks a
 locally matching node for more outputs than it has; the repaired revision `E.fixF1 = true` needs
 no such condition), then the
 assignment read off `r` (names ↦ `r.bindings`, pattern nodes ↦ matched nodes, unnamed value
@@ -30,7 +33,7 @@ variables, constants within `close`, output indices; every attached checker and 
 accepted; and with `remove_nodes` no intermediate matched value is a graph output or used outside
 the match.  The full statement (no side conditions) is refuted by `match_sound_full_refuted_*`. -/
 theorem match_sound_partial (E : Env) (root : NodeId) (rm : Bool) (r : Result)
-    (hno : E.p.noOr = true) (htopo : E.p.topo) (har : E.fixF1 = true ∨ OutputArityOk E.p E.g)
+    (hno : E.p.dispOk = true) (htopo : E.p.topoDeep) (har : E.fixF1 = true ∨ OutputArityOk E.p E.g)
     (h : patternMatch E root rm = some r) :
     Instance E root r.assign ∧ ChecksPass E.p r.assign ∧
       (rm = true → Removable E.g r.nodes r.outputs) :=
@@ -41,7 +44,7 @@ hypotheses: `r.outputs` are the images of the pattern outputs in order (by name 
 object identity otherwise), `r.nodes` is the image of the pattern nodes in binding order, and
 every declared pattern input is bound (to `None` when the match did not bind it). -/
 theorem bindings_exact_partial (E : Env) (root : NodeId) (rm : Bool) (r : Result)
-    (hno : E.p.noOr = true) (htopo : E.p.topo) (har : E.fixF1 = true ∨ OutputArityOk E.p E.g)
+    (hno : E.p.dispOk = true) (htopo : E.p.topoDeep) (har : E.fixF1 = true ∨ OutputArityOk E.p E.g)
     (h : patternMatch E root rm = some r) :
     E.p.outputs.mapM (r.assign.outputOf E.p) = some r.outputs ∧
       r.nodes = r.nb.map (·.2) ∧
@@ -62,6 +65,23 @@ theorem match_complete_partial (E : Env) (A : Assign) (root : NodeId) (np0 : NPI
     ∃ r, patternMatch E root false = some r ∧
       ((patternMatch E root true).isSome = true ↔ Removable E.g r.nodes r.outputs) :=
   patternMatch_complete_single E A root np0 hno htopo hsingle hroot hinst hchk
+
+/-- **Completeness — OR-free patterns with several output nodes, outside finding C06-F5.**
+If every output node after the first has an operator identifier and no host node carries an
+overload (the two conditions whose failure is finding C06-F5), the pattern outputs are outputs of
+output nodes and no opaque checker rejects, then every instance is reported: the instance's own
+node combination is among the candidates `itertools.product` goes through, `_multi_match` succeeds
+on it, hence `SimplePatternMatcher.match` and `Pattern.match` report a match (possibly on an earlier
+succeeding combination, cf. `match_deterministic`).  Soundness for several output nodes is already
+part of `match_sound_partial`. -/
+theorem match_complete_multi_partial (E : Env) (A : Assign) (root : NodeId)
+    (hno : E.p.noOr = true) (htopo : E.p.topo) (har : E.fixF1 = true ∨ OutputArityOk E.p E.g)
+    (houts : OutputsOfOutputNodes E.p) (hid : LaterOutputsIdentified E.p) (hov : NoOverloads E.g)
+    (hchk : E.p.checksOk = true) (hinst : Instance E root A) :
+    (∃ combo, combo ∈ combos E root ∧ (multiMatch E false combo).ok = true) ∧
+      (patternMatch E root false).isSome = true :=
+  ⟨let ⟨c, h1, h2, _⟩ := matcher_complete_multi E A root hno htopo har houts hid hov hinst; ⟨c, h1, h2⟩,
+   patternMatch_complete_multi E A root hno htopo har houts hid hov hchk hinst⟩
 
 /-- **Determinism / first combination in graph order.**  A successful match is the result of
 `_multi_match` on one candidate combination that starts with `root`, and every combination that
@@ -105,26 +125,43 @@ theorem solve_complete_partial (E : Env) (root : NodeId) (A : Assign) (htopo : E
 
 /-- `commute` yields one pattern per swap mask; the masks are exactly the `2^k` Boolean vectors
 that are `false` outside the `k` node patterns whose operator identifier is in
-`COMMUTATIVE_OPS`, each once, the all-`false` mask first — and for that mask the pattern itself
+`COMMUTATIVE_OPS` (and, with proposed fix C06-F7b, that are written with two inputs), each once, the all-`false` mask first — and for that mask the pattern itself
 (not a copy) is returned. -/
-theorem commute_exact (fix7a : Bool) (p : GPat) (l : List GPat) (h : commute fix7a p = .ok l) :
-    l.length = 2 ^ (p.nodes.filter NPat.isCommutative).length ∧
-      (masks p.nodes).Nodup ∧
-      (∀ m, m ∈ masks p.nodes ↔
+theorem commute_exact (fix7a fix7b : Bool) (p : GPat) (l : List GPat)
+    (h : commute fix7a p fix7b = .ok l) :
+    l.length = 2 ^ (p.nodes.filter (NPat.swappable fix7b)).length ∧
+      (masks fix7b p.nodes).Nodup ∧
+      (∀ m, m ∈ masks fix7b p.nodes ↔
         m.length = p.nodes.length ∧ ∀ (i : Nat) (b : Bool), m[i]? = some b → b = true →
-          ∃ n : NPat, p.nodes[i]? = some n ∧ n.isCommutative = true) ∧
+          ∃ n : NPat, p.nodes[i]? = some n ∧ n.swappable fix7b = true) ∧
       l.head? = some p :=
-  commute_counts fix7a p l h
+  commute_counts fix7a fix7b p l h
+
+/-- **Every swapped variant is the pattern with the masked nodes' two inputs exchanged.**  For a
+mask `m` with at least one swap, node pattern `i` of `copy_graph(m)` equals node pattern `i` of `p`
+in every field except that it has lost its operator identifier (`opIsStr = false`) and that its
+inputs are — up to object identity of the cloned value patterns (`skel`: ids erased, and
+`can_match_none` of a bare `ValuePattern`, which `ValuePattern.clone` drops) — the inputs of node
+`i`, reversed iff `m[i]`; a swapped node has exactly two inputs.  The semantic corollary
+("the variants match exactly the instances of the swapped patterns") is *not* a theorem here: it
+needs invariance of `Instance` under renaming of object ids and fails where cloning un-shares a
+doubly used unnamed object; the correspondence check tests it per case (commute oracle). -/
+theorem commute_variant_is_swap (fix7a : Bool) (p q : GPat) (m : List Bool) (hm : m.any id = true)
+    (h : copyGraph fix7a p m = .ok q) :
+    ∀ (i : Nat) (n n' : NPat) (b : Bool), p.nodes[i]? = some n → m[i]? = some b → q.nodes[i]? = some n' →
+      skelInputs n'.inputs = (if b then (skelInputs n.inputs).reverse else skelInputs n.inputs) ∧
+      (b = true → n.inputs.length = 2) ∧ n' = { n with inputs := n'.inputs, opIsStr := false } :=
+  copyGraph_skel fix7a p q m hm h
 
 /-- **`commute` keeps every `Constant` pattern intact**: in every variant, node pattern `i` holds
 exactly the `Constant` patterns of node pattern `i` of the original — same value, same `rel_tol`,
 same `abs_tol` (a `ConstPat` is the triple).  So a swapped variant accepts a constant iff the
 pattern as written does. -/
-theorem clone_preserves_constant (fix7a : Bool) (p : GPat) (l : List GPat) (q : GPat)
-    (h : commute fix7a p = .ok l) (hq : q ∈ l) :
+theorem clone_preserves_constant (fix7a fix7b : Bool) (p : GPat) (l : List GPat) (q : GPat)
+    (h : commute fix7a p fix7b = .ok l) (hq : q ∈ l) :
     ∀ (i : Nat) (n n' : NPat), p.nodes[i]? = some n → q.nodes[i]? = some n' →
       ∀ c : ConstPat, c ∈ n'.consts ↔ c ∈ n.consts :=
-  commute_consts fix7a p l q h hq
+  commute_consts fix7a fix7b p l q h hq
 
 /-! ## Refutations of the unrestricted statements (witnesses replayed on the real matcher) -/
 
@@ -290,6 +327,36 @@ def okEnv : Env :=
            outputs := [2], consts := [], foreign := [], extUses := [] }
     close := closeEq }
 
+/-- `Add(OrValue([Neg(x), Abs(x)]), y)` (an OpIdDispatchOr) against `n = Neg(a); s = Add(n, b)` -/
+def dispEnv : Env :=
+  { p := { inputs := [some "x", some "y"], cond := true,
+           nodes := [mkNode "Neg" [some xVar] 1, mkNode "Abs" [some xVar] 1,
+                     mkNode "Add" [some (.orD 3 none none
+                        [{ domain := "", op := "Neg", tag := 0, np := 0, idx := 0 },
+                         { domain := "", op := "Abs", tag := 1, np := 1, idx := 0 }]),
+                       some (.var 2 (some "y") true false none)] 1],
+           outputs := [.out 2 0] }
+    g := { nodes := [mkGNode "Neg" [some 0] [1], mkGNode "Add" [some 1, some 2] [3]],
+           outputs := [3], consts := [], foreign := [], extUses := [] }
+    close := closeEq }
+
+/-- `match_sound_partial` applies to a pattern with a dispatch OR, and that pattern matches -/
+example : dispEnv.p.dispOk = true ∧ dispEnv.p.noOr = false ∧ dispEnv.p.topoDeep ∧
+    (patternMatch dispEnv 1 true).isSome = true := by
+  refine ⟨by decide, by decide, ?_, by decide⟩
+  intro np P hP vp hin q hq
+  match np with
+  | 0 => simp [dispEnv, mkNode] at hP; subst hP; simp [xVar] at hin; subst hin; simp [VPat.refs] at hq
+  | 1 => simp [dispEnv, mkNode] at hP; subst hP; simp [xVar] at hin; subst hin; simp [VPat.refs] at hq
+  | 2 =>
+    simp [dispEnv, mkNode] at hP; subst hP
+    simp at hin
+    rcases hin with rfl | rfl
+    · simp [VPat.refs] at hq
+      rcases hq with rfl | rfl <;> decide
+    · simp [VPat.refs] at hq
+  | n + 3 => simp [dispEnv] at hP
+
 example : okEnv.p.noOr = true ∧ okEnv.p.topo ∧ OutputArityOk okEnv.p okEnv.g ∧
     (patternMatch okEnv 1 true).isSome = true := by
   refine ⟨by decide, ?_, ?_, by decide⟩
@@ -374,6 +441,80 @@ example : okEnv.p.noOr = true ∧ okEnv.p.outputNodes = [1] ∧ OutputsOfRoot ok
     | k + 2 => simp [okEnv] at hP
   · intro id v _
     simp [okEnv, GPat.valueChecks, mkNode, vpChecks, vpChecksL, xVar]
+
+/-- two output nodes: `(Neg(x), Abs(x))` against `n = Neg(a); m = Abs(a)` -/
+def multiEnv : Env :=
+  { p := { inputs := [some "x"], cond := true,
+           nodes := [mkNode "Neg" [some xVar] 1, mkNode "Abs" [some xVar] 1],
+           outputs := [.out 0 0, .out 1 0] }
+    g := { nodes := [mkGNode "Neg" [some 0] [1], mkGNode "Abs" [some 0] [2]],
+           outputs := [1, 2], consts := [], foreign := [], extUses := [] }
+    close := closeEq }
+
+def multiAssign : Assign :=
+  { names := fun k => if k = "x" then some (.val 0) else none
+    node := fun np => if np = 0 then some 0 else if np = 1 then some 1 else none
+    leaf := fun k => if k = .outp 0 0 then some (some 1) else if k = .outp 1 0 then some (some 2) else none }
+
+/-- the hypotheses of `match_complete_multi_partial` are satisfiable by a pattern with two output nodes -/
+example : multiEnv.p.outputNodes = [0, 1] ∧ multiEnv.p.noOr = true ∧ multiEnv.p.checksOk = true ∧
+    OutputsOfOutputNodes multiEnv.p ∧ LaterOutputsIdentified multiEnv.p ∧ NoOverloads multiEnv.g ∧
+    Instance multiEnv 0 multiAssign ∧ (patternMatch multiEnv 0 false).isSome = true := by
+  have hx : SatV multiEnv multiAssign xVar (some 0) :=
+    .var 1 (some "x") true false none (some 0)
+      (by simp [Assign.boundTo, GPat.vname, multiAssign, Bound.ofVal]) (by intro h; cases h)
+      (by intro x _ h; simp [multiEnv, Graph.isForeign] at h)
+  have mk : ∀ (np n : Nat) (op : String) (o : ValueId),
+      multiEnv.p.nodes[np]? = some (mkNode op [some xVar] 1) →
+      multiEnv.g.nodes[n]? = some (mkGNode op [some 0] [o]) →
+      multiAssign.node np = some n →
+      multiAssign.boundTo multiEnv.p (.out np 0) (some o) → SatN multiEnv multiAssign np n := by
+    intro np n op o hP hN hnode hb
+    refine .mk np n _ _ hP hN hnode (by simp [mkNode, mkGNode, StrPat.matches])
+      (by simp [mkNode, mkGNode, StrPat.matches]) ?_ (.inl (by simp [mkNode, mkGNode])) ?_ ?_ ?_
+    · exact ⟨fun name ap h => by simp [mkNode] at h, fun h => by simp [mkNode] at h⟩
+    · intro i h
+      match i with
+      | 0 => simp [mkNode] at h
+      | k + 1 => simp [mkNode] at h
+    · intro i vp h
+      match i with
+      | 0 => simp [mkNode] at h; subst h; simpa [inputAt, mkGNode] using hx
+      | k + 1 => simp [mkNode] at h
+    · intro i hi
+      have : i = 0 := by simp [mkNode] at hi; omega
+      subst this
+      exact ⟨o, by simp [mkGNode], hb⟩
+  have h0 : SatN multiEnv multiAssign 0 0 := mk 0 0 "Neg" 1 rfl rfl rfl
+    (by simp [Assign.boundTo, GPat.vname, GPat.outName, VPat.key, multiAssign, multiEnv, mkNode])
+  have h1 : SatN multiEnv multiAssign 1 1 := mk 1 1 "Abs" 2 rfl rfl rfl
+    (by simp [Assign.boundTo, GPat.vname, GPat.outName, VPat.key, multiAssign, multiEnv, mkNode])
+  refine ⟨by decide, by decide, by decide, ?_, ?_, ?_, ⟨?_, ?_, rfl⟩, by decide⟩
+  · intro vp hvp
+    simp [multiEnv] at hvp
+    rcases hvp with rfl | rfl
+    · exact ⟨0, 0, _, rfl, by decide, rfl, by simp [mkNode]⟩
+    · exact ⟨1, 0, _, rfl, by decide, rfl, by simp [mkNode]⟩
+  · intro np hnp
+    have : np = 1 := by
+      have h : multiEnv.p.outputNodes = [0, 1] := by decide
+      simpa [h] using hnp
+    subst this
+    exact ⟨_, "", "Abs", rfl, by decide⟩
+  · intro N hN
+    simp [multiEnv, mkGNode] at hN
+    rcases hN with rfl | rfl <;> rfl
+  · intro np h
+    have h' : multiEnv.p.outputNodes = [0, 1] := by decide
+    have : np = 0 := by simpa [h'] using h.symm
+    subst this; rfl
+  · intro np h
+    have h' : multiEnv.p.outputNodes = [0, 1] := by decide
+    rw [h'] at h
+    simp at h
+    rcases h with rfl | rfl
+    · exact ⟨0, rfl, h0⟩
+    · exact ⟨1, rfl, h1⟩
 
 def f2Pat : GPat :=
   { inputs := [some "x"], cond := true,
